@@ -1,7 +1,8 @@
 #!/usr/bin/env python3
-"""tools/mk_seeded.py <ID> <k> [<extra check id> ...]
-Stores a confirmed seeded change from its scratch worktree /tmp/wt/<ID> as /verif/seeded/<ID>-<k>/ (patch.diff, demo.py,
-notes.txt, meta.json), after tools/confirm_seeded.sh <ID> <k> was run (its logs are read for the confirmation outcome)."""
+"""tools/mk_seeded.py <ID> <k> [<extra check id> ...]          (round 1: worktree /tmp/wt/<ID>, stored as seeded/<ID>-<k>)
+   tools/mk_seeded.py <WT>:<ID>:<n> <k> [<extra check id> ...]  (later rounds: worktree /tmp/wt/<WT>, change k, stored as seeded/<ID>-<n>)
+Stores a confirmed seeded change from its scratch worktree as /verif/seeded/<ID>-<n>/ (patch.diff, demo.py, notes.txt,
+meta.json), after tools/confirm_seeded.sh <worktree> <k> was run (its logs are read for the confirmation outcome)."""
 import json
 import os
 import re
@@ -10,14 +11,17 @@ import sys
 
 ID, K = sys.argv[1], sys.argv[2]
 extra = sys.argv[3:]
-W = "/tmp/wt/%s" % ID
-D = "/verif/seeded/%s-%s" % (ID, K)
+WT, NK = ID, K
+if ":" in ID:
+    WT, ID, NK = ID.split(":")
+W = "/tmp/wt/%s" % WT
+D = "/verif/seeded/%s-%s" % (ID, NK)
 os.makedirs(D, exist_ok=True)
 shutil.copy("%s/patch%s.diff" % (W, K), D + "/patch.diff")
 shutil.copy("%s/demo%s.py" % (W, K), D + "/demo.py")
 notes = open("%s/notes%s.txt" % (W, K)).read()
 open(D + "/notes.txt", "w").write(notes)
-tests = open("/tmp/wt/%s.tests%s.log" % (ID, K)).read().strip().splitlines()[-1]
+tests = open("/tmp/wt/%s.tests%s.log" % (WT, K)).read().strip().splitlines()[-1]
 m = re.search(r"(Need[^\n]*(?:\n  [^\n]*)*)", notes)
 files = re.findall(r"^\+\+\+ b/(\S+)", open(D + "/patch.diff").read(), re.M)
 meta = {
